@@ -37,9 +37,9 @@ func init() {
 			"just before, at and after each 8-byte chunk boundary; long keys of 31..300 and 4100 bytes (first-difference bits beyond 2048 and 32768) with differences at the far end; CountPrefixes on strictly ascending keyzoo sets of 2..40 keys x ALL sub-ranges [s,e) with e-s >= 2 (sets <= 8 keys) or sampled x m in {1,2,3,8,9,17,64,200}, " +
 			"against explicitly built sets of truncated bit strings. Non-trivial+distinct = hash of (a,b) pairs with a != b; hash of (keys, s, e, m).",
 		Assumptions: []string{"non-empty key lists; CountPrefixes only on strictly ascending keys, e-s >= 2, m >= 1"},
-		Flavours:    releaseThenGo126,
+		Flavours:    releaseAnd386,
 		Required: []string{"fd/equal", "fd/byte-prefix", "fd/nul-padding-twin", "fd/diff-in-chunk-0", "fd/diff-in-chunk-1", "fd/diff-in-chunk-2", "fd/diff-at-chunk-boundary", "fd/empty-key", "fd/single-key-list",
-			"cp/s>0", "cp/m=1", "cp/m>=64", "cp/key-shorter-than-prefix", "cp/all-subranges", "fd/first-diff-bit>=2048", "fd/first-diff-bit>=32768"},
+			"cp/s>0", "cp/m=1", "cp/m>=64", "cp/key-shorter-than-prefix", "cp/all-subranges", "fd/first-diff-bit>=2048", "fd/first-diff-bit>=32768", "fd/keys>2^18"},
 		Families: func(c *mon.Config) []mon.Family {
 			return []mon.Family{
 				{Name: "fd-small-universe", N: 40, Run: c16Small},
@@ -47,6 +47,7 @@ func init() {
 				{Name: "fd-keyzoo", N: c.Pick(10000, 1500000), Run: c16Zoo},
 				{Name: "countprefixes", N: c.Pick(6000, 800000), Run: c16Count},
 				{Name: "long-keys", N: len(c16LongLens) * c.Pick(2, 200), Run: c16LongKeys},
+				{Name: "many-keys", N: c.Pick(1, 12), Run: c16ManyKeys},
 			}
 		},
 	})
@@ -251,6 +252,12 @@ func c16Count(w *mon.W, idx int) {
 				break
 			}
 		}
+		// hostile caller: the counters are ours now; overwrite them and remember them. A later call on the
+		// same SigBits must not touch them (no reused result buffer)
+		scribbleI32(gc)
+		if !retainCheck(w, "CountPrefixes", "SigBits.CountPrefixes", func() uint64 { return hashI32(gc) }) {
+			return false
+		}
 		if s > 0 {
 			w.Bucket("cp/s>0")
 		}
@@ -366,5 +373,37 @@ func c16LongKeys(w *mon.W, idx int) {
 	w.Distinct(gen.Hash64(0x10a6, uint64(l), gen.HashBytes(stem)))
 	w.Sample(func() interface{} {
 		return mon.D{"key_len": l, "keys": len(keys), "what": "long keys differing near their end"}
+	})
+}
+
+// c16ManyKeys: more than 2^18 ascending keys under a common prefix (every adjacent pair shares bytes).
+func c16ManyKeys(w *mon.W, idx int) {
+	r := w.Rng
+	n := 262145 + r.Intn(30000)
+	keys := make([]string, 0, n)
+	for i := 0; i < n; i++ {
+		keys = append(keys, "key"+string([]byte{byte(i >> 16), byte(i >> 8), byte(i)}))
+		if i&8191 == 0 {
+			w.Tick()
+		}
+	}
+	w.Op = "FirstDiffBits(many keys)"
+	got := sigbits.FirstDiffBits(keys)
+	w.Tick()
+	if len(got) != n-1 {
+		w.Fail("FirstDiffBits/len", mon.D{"nkeys": n, "got": len(got)})
+		return
+	}
+	for i := range got {
+		if e := c16FirstDiff(keys[i], keys[i+1]); int(got[i]) != e {
+			w.Fail("FirstDiffBits/value", mon.D{"nkeys": n, "pair": i, "a": fmt.Sprintf("%q", keys[i]), "b": fmt.Sprintf("%q", keys[i+1]), "got": got[i], "expected": e})
+			return
+		}
+	}
+	w.Eval(int64(n))
+	w.Bucket("fd/keys>2^18")
+	w.Distinct(gen.Hash64(0x3a9, uint64(n)))
+	w.Sample(func() interface{} {
+		return mon.D{"nkeys": n, "what": "more than 2^18 ascending keys under a common prefix"}
 	})
 }
